@@ -41,12 +41,25 @@ def flat_classifiers():
     ]
 
 
+def negated_group_lists_dot(ast):
+    """a segment that starts with `!(...)` one of whose alternatives starts with a written dot"""
+    for toks in globcommon.top_tokens(ast):
+        if toks and toks[0].startswith('xN('):
+            for alt in globcommon.split_top(toks[0][3:-1], ';'):
+                first = globcommon.split_top(alt, '.')[0] if alt else ''
+                if first in ('l2e', 'e2e'):
+                    return True
+    return False
+
+
 def path_classifiers():
     return [
         ('C03-star-guard-inside-optional', lambda m: m['name'] is not None and m['impl'] is True and m['ub'] is False and
          has_hidden_segment(m['name']) and any(star_then_wild(t) for t in seg_tokens(m['ast']))),
         ('C03-group-then-wild', lambda m: m['name'] is not None and m['impl'] is True and m['ub'] is False and
          has_hidden_segment(m['name']) and group_then_wild(m['ast'])),
+        ('C03-negated-group-dotted-alternative', lambda m: m['name'] is not None and m['impl'] is True and m['ub'] is False and m['cfg']['dot'] and
+         any(sg in ('.', '..') for sg in m['name'].split('/')) and negated_group_lists_dot(m['ast'])),
         ('C03-prefix-gstar-hidden', lambda m: m['name'] is not None and m['impl'] is True and m['ub'] is False and
          has_hidden_segment(m['name']) and m['cfg']['mb'] and m['cfg']['gs'] and m['ast'].split(':')[1].split('/')[0] in ('g', 'G')),
         ('C02-group-segment-empty', lambda m: m['name'] is not None and m['impl'] is True and m['ub'] is False and
@@ -290,6 +303,8 @@ def run(ctx):
         ('C03-prefix-gstar-hidden', "globmatch('x/.a', '**', GLOBSTAR|MATCHBASE) is True and PurePath('sub/.h').match('**', GLOBSTAR) is True",
          lambda: Gm.globmatch('x/.a', '**', flags=Gm.GLOBSTAR | Gm.MATCHBASE | Gm.FORCEUNIX) is True and
          PL.PurePosixPath('sub/.h').match('**', flags=PL.GLOBSTAR) is True),
+        ('C03-negated-group-dotted-alternative', "globmatch('..', '!(.a)', EXTGLOB|DOTGLOB) is True (with `!(a)` it is False: the guard against `.`/`..` is left out when the list names something dotted)",
+         lambda: Gm.globmatch('..', '!(.a)', flags=Gm.EXTGLOB | Gm.DOTGLOB | Gm.FORCEUNIX) is True and Gm.globmatch('..', '!(a)', flags=Gm.EXTGLOB | Gm.DOTGLOB | Gm.FORCEUNIX) is False),
     ])
     return ctx.finish(RULE)
 
